@@ -126,6 +126,7 @@ func impl(in hv.Val) hv.Val {
 		case 1:
 			n := int(hv.AsInt(op[1]))
 			before := back.Avail()
+			g0 := runtime.NumGoroutine()
 			if n == 1 {
 				back.OnFail(cluster)
 			} else {
@@ -139,7 +140,12 @@ func impl(in hv.Val) hv.Val {
 			if before && !back.Avail() && !released {
 				waitArrival(3 * time.Second) // the checker that was just started issues its first request
 			} else if released {
-				waitGone() // a checker started for a removed backend leaves at once
+				// a checker started for a removed backend leaves at once: wait until the goroutine count is back
+				// (the new goroutine may not have run yet) and no goroutine is inside check
+				deadline := time.Now().Add(3 * time.Second)
+				for (runtime.NumGoroutine() > g0 || liveCheckers() > 0) && time.Now().Before(deadline) {
+					time.Sleep(20 * time.Microsecond)
+				}
 			}
 		case 2:
 			back.OnSuccess()
@@ -161,10 +167,14 @@ func impl(in hv.Val) hv.Val {
 					default:
 					}
 				} else {
-					// either the next request arrives or the backend is back in rotation
+					// either the next request arrives or the backend is back in rotation (then the checker leaves)
 					deadline := time.Now().Add(3 * time.Second)
 					for {
-						if waitArrival(50 * time.Microsecond) || back.Avail() || time.Now().After(deadline) {
+						if waitArrival(50 * time.Microsecond) || time.Now().After(deadline) {
+							break
+						}
+						if back.Avail() {
+							waitGone()
 							break
 						}
 					}
@@ -174,6 +184,19 @@ func impl(in hv.Val) hv.Val {
 			if !released {
 				back.Release()
 				released = true
+			}
+		case 8:
+			// a reload removes the whole cluster: its check conf disappears and the backend is released, whatever the
+			// state of the backend (also while a checker has a check outstanding)
+			mu.Lock()
+			delete(confs, cluster)
+			mu.Unlock()
+			if !released {
+				back.Release()
+				released = true
+			}
+			if atomic.LoadInt32(&pending) == 0 {
+				waitGone()
 			}
 		case 6:
 			ft := int(hv.AsInt(op[1]))
@@ -190,7 +213,7 @@ func impl(in hv.Val) hv.Val {
 			return hv.Err(0)
 		}
 		out = append(out, hv.L{hv.Bool(back.Avail()), hv.I(back.FailNum()), hv.I(back.SuccNum()),
-			hv.I(int(atomic.LoadInt32(&pending))), hv.Bool(back.GetRestart())})
+			hv.I(int(atomic.LoadInt32(&pending))), hv.Bool(back.GetRestart()), hv.I(liveCheckers())})
 	}
 	// stop whatever is still running for this case
 	if !released {
@@ -240,8 +263,11 @@ func gen(r *hv.Rng, i int, tier string) (string, hv.Val) {
 			ops = append(ops, hv.L{hv.I(3)})
 		case c < 88:
 			ops = append(ops, hv.L{hv.I(4)})
-		case c < 91:
+		case c < 89:
 			ops = append(ops, hv.L{hv.I(5)})
+			rel = true
+		case c < 91:
+			ops = append(ops, hv.L{hv.I(8)})
 			rel = true
 		default:
 			ft := thr(4)
